@@ -23,6 +23,10 @@ fn main() {
         rngs_verif_harness::monitors::c19::child_main(id, &order);
         return;
     }
+    if args[1] == "--dump-c06-oracle" {
+        rngs_verif_harness::monitors::c06::dump_oracles(&args[2]);
+        return;
+    }
     let prop = args[1].clone();
     let mut tier = "quick".to_string();
     let mut seed = 0u64;
